@@ -712,7 +712,8 @@ class FuncAnalysis:
                 for n in (h.type.elts if isinstance(h.type, ast.Tuple) else [h.type]):
                     types.append(ast.unparse(n).split('.')[-1])
         types = tuple(types)
-        tid = s.lineno
+        self._n_try = getattr(self, '_n_try', 0) + 1
+        tid = self._n_try       # ordinal, not a line number: terms must not depend on positions
         pre = dict(self.env)
         self._trys.append((types, 'body', tid))
         st_body = self._block(s.body)
